@@ -18,7 +18,7 @@ macro_rules! enum_row {
             // (&v): apt_sources::YesNoForce implements ToString for the reference only
             <$ty>::from_str(s).map(|v| (&v).to_string()).map_err(|e| format!("{:?}", e))
         }
-        TypeRow { ty: $name, n_values: n, value, canonical: &[$($kw),+], reprint, keywords: &[$($kw),+], case_insensitive: $ci }
+        TypeRow { ty: $name, n_values: n, value, canonical: &[$($kw),+], reprint, keywords: &[$($kw),+], case_insensitive: $ci, filter: None }
     }};
 }
 
@@ -36,7 +36,7 @@ macro_rules! record_row {
         fn reprint(s: &str) -> Result<String, String> {
             <$ty>::from_str(s).map(|v| v.to_string()).map_err(|e| format!("{:?}", e))
         }
-        TypeRow { ty: $name, n_values: n, value, canonical: &[$($c),*], reprint, keywords: &[], case_insensitive: false }
+        TypeRow { ty: $name, n_values: n, value, canonical: &[$($c),*], reprint, keywords: &[], case_insensitive: false, filter: None }
     }};
 }
 
@@ -226,9 +226,76 @@ mod origin_row {
     ];
 }
 
+/// A keyword embedded in a composite value: the candidate string takes the keyword's place in an otherwise valid
+/// record / paragraph, and the composite's own reader must reject it unless it is a keyword of the family (a record reader
+/// that maps an unknown keyword to a default passes every test made on the bare keyword type).
+macro_rules! embed_row {
+    ($name:literal, keywords = [$($kw:literal),+], case_insensitive = $ci:literal, filter = $filter:expr, $read:expr) => {{
+        fn n() -> usize { [$($kw),+].len() }
+        fn reprint(s: &str) -> Result<String, String> {
+            let f: fn(&str) -> Result<String, String> = $read;
+            f(s)
+        }
+        fn value(i: usize) -> (String, String, Result<String, String>) {
+            let k = [$($kw),+][i];
+            (k.to_string(), k.to_string(), reprint(k))
+        }
+        TypeRow { ty: $name, n_values: n, value, canonical: &[$($kw),+], reprint, keywords: &[$($kw),+], case_insensitive: $ci, filter: Some($filter) }
+    }};
+}
+
+/// one whitespace-free, non-empty token (the slot of a whitespace-separated record or of a one-line field)
+fn one_token(s: &str) -> bool {
+    !s.is_empty() && !s.chars().any(|c| c.is_whitespace())
+}
+fn operator_chars(s: &str) -> bool {
+    !s.is_empty() && s.chars().all(|c| "<=>".contains(c))
+}
+
+/// The value of `field` after the paragraph (every mandatory field of the struct with its first valid value, `field: s`
+/// at its declared position) has gone through the derived reader of `spec` - on either paragraph back-end.
+fn through_spec(spec: &str, field: &str, s: &str) -> Result<String, String> {
+    let specs = crate::props::c16::all_specs();
+    let sp = specs.iter().find(|x| x.id == spec).ok_or_else(|| format!("no table for {}", spec))?;
+    let fs: Vec<(&str, &str)> = sp.fields.iter().filter(|f| f.mandatory || f.name == field).map(|f| (f.name, if f.name == field { s } else { f.valid[0] })).collect();
+    let text = crate::typed::render_para(&fs);
+    let pick = |items: crate::typed::Items| items.into_iter().find(|(k, _)| k == field).map(|(_, v)| v).ok_or_else(|| format!("accepted, but {} is gone from {:?}", field, text));
+    match ((sp.roundtrip)(&text, false), (sp.roundtrip)(&text, true)) {
+        (Ok(a), _) => pick(a),
+        (_, Ok(b)) => pick(b),
+        (Err(e), Err(_)) => Err(e),
+    }
+}
+
 pub fn rows() -> Vec<TypeRow> {
     use debian_control::fields::*;
     let mut v = vec![];
+
+    // ---- keywords inside composite values ----
+    v.push(embed_row!("changes::File priority token", keywords = ["required", "important", "standard", "optional", "extra"], case_insensitive = false, filter = one_token,
+        |s| debian_control::changes::File::from_str(&format!("abc 1 net {} f_1.dsc", s)).map(|f| f.priority.to_string()).map_err(|e| format!("{:?}", e))));
+    v.push(embed_row!("fields::PackageListEntry priority token", keywords = ["required", "important", "standard", "optional", "extra"], case_insensitive = false, filter = one_token,
+        |s| PackageListEntry::from_str(&format!("foo deb net {}", s)).map(|f| f.priority.to_string()).map_err(|e| format!("{:?}", e))));
+    v.push(embed_row!("fields::PackageListEntry priority token before an extra key", keywords = ["required", "important", "standard", "optional", "extra"], case_insensitive = false, filter = one_token,
+        |s| PackageListEntry::from_str(&format!("foo deb net {} arch=any", s)).map(|f| f.priority.to_string()).map_err(|e| format!("{:?}", e))));
+    v.push(embed_row!("lossy::control::Source Priority field", keywords = ["required", "important", "standard", "optional", "extra"], case_insensitive = false, filter = one_token,
+        |s| through_spec("lossy::control::Source", "Priority", s)));
+    v.push(embed_row!("lossy::control::Binary Priority field", keywords = ["required", "important", "standard", "optional", "extra"], case_insensitive = false, filter = one_token,
+        |s| through_spec("lossy::control::Binary", "Priority", s)));
+    v.push(embed_row!("lossy::control::Binary Multi-Arch field", keywords = ["same", "foreign", "no", "allowed"], case_insensitive = false, filter = one_token,
+        |s| through_spec("lossy::control::Binary", "Multi-Arch", s)));
+    v.push(embed_row!("lossy::apt::Source Priority field", keywords = ["required", "important", "standard", "optional", "extra"], case_insensitive = false, filter = one_token,
+        |s| through_spec("lossy::apt::Source", "Priority", s)));
+    v.push(embed_row!("lossy::apt::Package Priority field", keywords = ["required", "important", "standard", "optional", "extra"], case_insensitive = false, filter = one_token,
+        |s| through_spec("lossy::apt::Package", "Priority", s)));
+    v.push(embed_row!("apt_sources::Repository Types field", keywords = ["deb", "deb-src"], case_insensitive = false, filter = one_token,
+        |s| through_spec("apt_sources::Repository", "Types", s)));
+    v.push(embed_row!("apt_sources::Repository By-Hash field", keywords = ["yes", "no", "force"], case_insensitive = false, filter = one_token,
+        |s| through_spec("apt_sources::Repository", "By-Hash", s)));
+    v.push(embed_row!("lossy::relations::Relation operator", keywords = ["<<", "<=", "=", ">=", ">>"], case_insensitive = false, filter = operator_chars,
+        |s| debian_control::lossy::Relation::from_str(&format!("a ({} 1)", s)).map(|r| r.version.map(|(c, _)| c.to_string()).unwrap_or_default())));
+    v.push(embed_row!("lossless::relations::Relation operator", keywords = ["<<", "<=", "=", ">=", ">>"], case_insensitive = false, filter = operator_chars,
+        |s| debian_control::lossless::relations::Relation::from_str(&format!("a ({} 1)", s)).map(|r| r.version().map(|(c, _)| c.to_string()).unwrap_or_default())));
 
     // ---- debian-control/src/fields.rs ----
     v.push(enum_row!(Priority, "fields::Priority",
@@ -300,7 +367,7 @@ pub fn rows() -> Vec<TypeRow> {
         fn reprint(s: &str) -> Result<String, String> {
             debian_control::parse_identity(s).map(|(n, m)| if n.is_empty() { m.to_string() } else { format!("{} <{}>", n, m) }).map_err(|e| format!("{:?}", e))
         }
-        v.push(TypeRow { ty: "parse_identity (name, email)", n_values: n, value, canonical: &["A B <a@b>", "a@b"], reprint, keywords: &[], case_insensitive: false });
+        v.push(TypeRow { ty: "parse_identity (name, email)", n_values: n, value, canonical: &["A B <a@b>", "a@b"], reprint, keywords: &[], case_insensitive: false, filter: None });
     }
 
     // ---- debian-control/src/relations.rs ----
@@ -333,8 +400,8 @@ pub fn rows() -> Vec<TypeRow> {
                 out
             },
             canonical = ["https://example.com/r.git", "https://example.com/r.git -b main", "https://example.com/r.git [sub]", "https://example.com/r.git -b debian/sid [a/b]"]));
-        v.push(TypeRow { ty: "vcs::Vcs", n_values: vcs_row::n, value: vcs_row::value, canonical: vcs_row::CANONICAL, reprint: vcs_row::reprint, keywords: &[], case_insensitive: false });
-        v.push(TypeRow { ty: "vcs::Vcs kind name", n_values: vcs_row::kind_n, value: vcs_row::kind_value, canonical: vcs_row::KINDS, reprint: vcs_row::kind_reprint, keywords: vcs_row::KINDS, case_insensitive: false });
+        v.push(TypeRow { ty: "vcs::Vcs", n_values: vcs_row::n, value: vcs_row::value, canonical: vcs_row::CANONICAL, reprint: vcs_row::reprint, keywords: &[], case_insensitive: false, filter: None });
+        v.push(TypeRow { ty: "vcs::Vcs kind name", n_values: vcs_row::kind_n, value: vcs_row::kind_value, canonical: vcs_row::KINDS, reprint: vcs_row::kind_reprint, keywords: vcs_row::KINDS, case_insensitive: false, filter: None });
     }
 
     // ---- dep3/src/fields.rs ----
@@ -373,8 +440,8 @@ pub fn rows() -> Vec<TypeRow> {
                 out
             },
             canonical = ["commit:abc123", "https://example.com/c/1", "1.2.3"]));
-        v.push(TypeRow { ty: "dep3::lossless::PatchHeader origin (category, Origin)", n_values: origin_row::n, value: origin_row::value_lossless, canonical: origin_row::CANONICAL, reprint: origin_row::reprint_lossless, keywords: &[], case_insensitive: false });
-        v.push(TypeRow { ty: "dep3::lossy::PatchHeader origin (category, Origin)", n_values: origin_row::n, value: origin_row::value_lossy, canonical: origin_row::CANONICAL, reprint: origin_row::reprint_lossy, keywords: &[], case_insensitive: false });
+        v.push(TypeRow { ty: "dep3::lossless::PatchHeader origin (category, Origin)", n_values: origin_row::n, value: origin_row::value_lossless, canonical: origin_row::CANONICAL, reprint: origin_row::reprint_lossless, keywords: &[], case_insensitive: false, filter: None });
+        v.push(TypeRow { ty: "dep3::lossy::PatchHeader origin (category, Origin)", n_values: origin_row::n, value: origin_row::value_lossy, canonical: origin_row::CANONICAL, reprint: origin_row::reprint_lossy, keywords: &[], case_insensitive: false, filter: None });
     }
 
     // ---- debian-copyright/src/lib.rs ----
